@@ -26,7 +26,7 @@ package object
 
 // ---- trees in memory: a forest is a []*Node; a node without children is a file
 
-//@ ghost treeWF(cs []*Node) bool reads Node.Children
+//@ ghost treeWF(cs []*Node) bool reads Node.Children, Node.Hash
 //@ ghost height(cs []*Node) int reads Node.Children
 //@ ghost validNames(cs []*Node) bool reads Node.Children, Node.Name
 //@ ghost uniqueTree(cs []*Node) bool reads Node.Children, Node.Name
@@ -36,7 +36,7 @@ package object
 // uniqueTree: sibling names are distinct. Goit writes only trees with all three; a tree read from a damaged
 // object has the first only.
 //@ axiom [height-nonneg] forall cs []*Node {height(cs)} :: height(cs) >= 0
-//@ axiom [treeWF-elim] forall cs []*Node, k int {treeWF(cs), cs[k]} :: treeWF(cs) && 0 <= k && k < len(cs) ==> cs[k] != nil && treeWF(cs[k].Children) && height(cs[k].Children) < height(cs)
+//@ axiom [treeWF-elim] forall cs []*Node, k int {treeWF(cs), cs[k]} :: treeWF(cs) && 0 <= k && k < len(cs) ==> cs[k] != nil && treeWF(cs[k].Children) && height(cs[k].Children) < height(cs) && len(cs[k].Hash) >= 20
 //@ axiom [validNames-elim] forall cs []*Node, k int {validNames(cs), cs[k]} :: validNames(cs) && 0 <= k && k < len(cs) ==> validNames(cs[k].Children) && !contains(cs[k].Name, "/") && len(cs[k].Name) > 0
 //@ axiom [uniqueTree-elim] forall cs []*Node, i int, j int {uniqueTree(cs), cs[i], cs[j]} :: uniqueTree(cs) && 0 <= i && i < len(cs) && 0 <= j && j < len(cs) && i != j ==> cs[i].Name != cs[j].Name
 //@ axiom [uniqueTree-sub] forall cs []*Node, k int {uniqueTree(cs), cs[k]} :: uniqueTree(cs) && 0 <= k && k < len(cs) ==> uniqueTree(cs[k].Children)
@@ -53,6 +53,7 @@ package object
 //@   ensures [sound] {C07,C09} found ==> n != nil && denotes(children, path, n)
 //@   ensures [complete] {C07,C09} !found && uniqueTree(children) ==> forall m *Node :: !denotes(children, path, m)
 //@   ensures [nil] !found ==> n == nil
+//@   ensures [hash] found ==> len(n.Hash) >= 20
 //@   loop 0:
 //@     invariant forall k int :: 0 <= k && k < it ==> children[k].Name != searchName
 
